@@ -15,7 +15,8 @@ open FuModel.Find.Walk
 /-- `-print0` (resp. `-print`) appends exactly the path followed by one NUL (resp. newline) to
     the output; nothing is escaped or added. -/
 theorem C07_print_exact (start : Bytes) (v : Visit Attr) (s : ES) (term : UInt8) :
-    sem start v (.pathOut [] [term]) s = (true, { s with out := s.out ++ pathOf start v.ent.rpath ++ [term] }) := by
+    sem start v (.pathOut [] [term]) s =
+      (true, { s with gs := { s.gs with out := s.gs.out ++ pathOf start v.ent.rpath ++ [term] } }) := by
   simp [sem]
 
 def endsSlash (p : Bytes) : Bool := p.getLast? == some 47
